@@ -287,6 +287,57 @@ static void s7(int seed, int nthreads, int iters)
   for (auto& th : ts) th.join();
 }
 
+// F1: forced schedules at critical-section granularity.  Thread K holds the library's global lock (public API:
+// trompeloeil::get_lock(), recursive), lets thread R start its operation — which has to wait for the lock — performs its
+// own operation under the lock and releases it.  R's operation therefore takes effect after K's: the outcome must be the
+// one of executing K's operation and then R's, one at a time.
+static void f1(int seed, int nthreads, int iters)
+{
+  (void)nthreads;
+  std::mt19937 r(static_cast<unsigned>(seed));
+  for (int i = 0; i < iters; ++i) {
+    int pair = i % 3;
+    std::atomic<int> stage{0};
+    int k_reports = 0, r_reports = 0;
+    bool call_ok = true;
+    M* m = new M;
+    auto* o = new DW;
+    std::unique_ptr<trompeloeil::expectation> e;
+    std::unique_ptr<trompeloeil::lifetime_monitor> d;
+    if (pair == 0) d = NAMED_REQUIRE_DESTRUCTION(*o);
+    else if (pair == 1) e = NAMED_REQUIRE_CALL(*m, g(1));
+    else e = NAMED_REQUIRE_CALL(*m, g(2));
+    unsigned hold_us = 300 + r() % 700;
+    std::thread R([&] {
+      while (stage.load() == 0) std::this_thread::yield();
+      int before = my_nonfatal;
+      if (pair == 0) d.reset(); else e.reset();       // blocks until K leaves its critical section
+      r_reports = my_nonfatal - before;
+    });
+    {
+      auto lock = trompeloeil::get_lock();
+      stage = 1;
+      std::this_thread::sleep_for(std::chrono::microseconds(hold_us));   // R reaches the lock (or reads state it must not read yet)
+      int before = my_nonfatal;
+      if (pair == 0) { delete o; o = nullptr; }
+      else if (pair == 1) { try { m->g(1); } catch (Reported const&) { call_ok = false; } }
+      else { delete m; m = nullptr; }
+      k_reports = my_nonfatal - before;
+    }
+    R.join();
+    // serial outcome K;R:  0: requirement fulfilled, silent release.  1: call accepted, fulfilled expectation released silently.
+    //                      2: mock dies with a pending expectation (one report), the release afterwards is silent.
+    int want_k = pair == 2 ? 1 : 0, want_r = 0;
+    if (k_reports != want_k || r_reports != want_r || !call_ok) {
+      std::printf("FAIL forced schedule pair=%d: reports K=%d R=%d (serial order K;R gives K=%d R=%d)%s\n", pair, k_reports, r_reports, want_k, want_r,
+                  call_ok ? "" : " call rejected");
+      ++fatal_reports;
+    }
+    delete o;
+    delete m;
+  }
+}
+
 // L1 (hooked build): operations on ONE shared mock function logged with their critical-section tickets, for sequential replay
 static void l1(int seed, int nthreads, int iters)
 {
@@ -354,6 +405,7 @@ int main(int argc, char** argv)
   else if (sc == "s5") s5(seed, nthreads, iters);
   else if (sc == "s6") s6(seed, nthreads, iters);
   else if (sc == "s7") s7(seed, nthreads, iters);
+  else if (sc == "f1") f1(seed, nthreads, iters / 2);
   else if (sc == "l1") l1(seed, nthreads, iters);
   else { std::printf("unknown scenario\n"); return 2; }
 #ifdef TROMPELOEIL_VERIF
